@@ -11,6 +11,7 @@
 XPath 1.0 implementation - part 3 (functions)
 """
 import math
+import re
 import decimal
 from collections.abc import Iterator
 from typing import Any
@@ -245,7 +246,7 @@ def evaluate__normalize_space(self: XPathFunction, context: ta.ContextType = Non
         arg = self.string_value(self.get_argument(context, default_to_context=True, default=''))
     else:
         arg = self.get_argument(context, default_to_context=True, default='', cls=str)
-    return ' '.join(arg.strip().split())
+    return ' '.join(x for x in re.split('[ \t\n\r]+', arg) if x)
 
 
 @method(function('starts-with', nargs=2,
